@@ -86,3 +86,11 @@ UFUNCS = {
 
 # ufuncs whose angle-valued input must be converted to radian first
 ANGLE_AWARE = {"sin", "cos", "tan"}
+
+# Binary ufuncs that are NOT positively homogeneous in their operands jointly: f(s*a, s*b) is fixed (or s*f) only
+# when both operands are scaled together.  For commensurable operands written in different units they therefore have
+# to be evaluated with both operands in ONE unit (np.floor_divide(1 km, 300 m) is 3, not floor(1/300)*1000).
+# The statement of C04 excludes only floor-division of *different dimensions*.
+NEEDS_COMMON_UNIT = {"remainder", "mod", "fmod", "floor_divide", "divmod"}
+# dimensional type of divmod's two outputs (quotient, remainder)
+DIVMOD_OUTPUTS = ("U1/U2", "U1")
